@@ -82,13 +82,17 @@ def one_case(rng):
     calls.append(dict(kind="samples", pop=p, has_time=1 if has_time else 0, t=tt, result=[int(u) for u in ts.samples(**kw)]))
     # whole-sequence properties, on the same tables with coordinates mapped through a monotone map
     cm = gen.CMap(rng.choice(["id", "third", "half", "big"]))
-    ts2 = gen.build_tables(a, cm).tree_sequence()
+    tmk = rng.choice(["id", "id", "third", "half", "big"])
+    toff = rng.choice([0, 0, -7, -1000000, -7.25])
+    tm = gen.CMap(tmk, offset=toff)
+    ts2 = gen.build_tables(a, cm, tm).tree_sequence()
     try:
-        mrt = int(ts2.max_root_time)
+        mrt = tm.back(ts2.max_root_time)
     except ValueError:
         mrt = -1
-    calls.append(dict(kind="ts_props", cmap=cm.kind, max_root_time=mrt, min_time=int(ts2.min_time), max_time=int(ts2.max_time),
-                      discrete_genome=1 if ts2.discrete_genome else 0, num_trees=int(ts2.num_trees)))
+    calls.append(dict(kind="ts_props", cmap=cm.kind, max_root_time=mrt, min_time=tm.back(ts2.min_time), max_time=tm.back(ts2.max_time),
+                      discrete_genome=1 if ts2.discrete_genome else 0, num_trees=int(ts2.num_trees),
+                      tmap=tmk, toff_int=1 if toff == int(toff) else 0, toff=int(toff), discrete_time=1 if ts2.discrete_time else 0))
     return dict(ts=rec, calls=calls)
 
 
